@@ -120,6 +120,8 @@ def expr(e, cx: Ctx) -> str:
             return expr(e.args[0], cx)          # int() of an integer-valued expression
         if f == "len" and len(e.args) == 1 and isinstance(e.args[0], ast.Name):
             return cx.add_extra(f"{e.args[0].id}_size")
+        if ast.unparse(e) in cx.attr_map:
+            return cx.add_extra(cx.attr_map[ast.unparse(e)])
         if f in cx.call_map:
             return "(" + cx.call_map[f] + " " + " ".join(expr(a, cx) for a in e.args) + ")"
         raise Unsupported(f"call {f}")
@@ -485,7 +487,8 @@ class StraightLine:
             x = ident(s.target.id)
             return f"{pad}let {x} := ({x} {BIN[type(s.op)]} {expr(s.value, self.cx)}) in\n" + cont()
         if isinstance(s, ast.If):
-            body = [b for b in s.body if not (isinstance(b, ast.Assign) and isinstance(b.value, ast.JoinedStr))]
+            body = [b for b in s.body if not (isinstance(b, ast.Assign) and (isinstance(b.value, ast.JoinedStr) or
+                                                                     (isinstance(b.value, ast.Constant) and isinstance(b.value.value, str))))]
             if body and isinstance(body[-1], ast.Raise):
                 if len(body) != 1 or s.orelse:
                     raise Unsupported("raise branch with other statements")
@@ -530,7 +533,8 @@ def gen_plan(repo="/repo"):
     out = ["(* GENERATED by tools/py2coq from sigpyproc/readers.py and sigpyproc/io/fileio.py -- do not edit *)",
            "From Coq Require Import ZArith List Bool.", "Require Import SPP.Base.Rt.", "Import ListNotations.", "Open Scope Z_scope.", ""]
     errors = []
-    attr = {"self.header.nchans": "nchans", "self.samp_stride": "samp_stride", "self.header.nsamples": "hdr_nsamples"}
+    attr = {"self.header.nchans": "nchans", "self.samp_stride": "samp_stride", "self.header.nsamples": "hdr_nsamples",
+            "self._file.sinfo.get_combined('datalen')": "stream_nbytes"}
     for cls, defname in (("FilReader", "fil_plan"), ("PFITSReader", "pfits_plan")):
         try:
             fn = _method(repo, "sigpyproc/readers.py", cls, "read_plan")
